@@ -13,7 +13,7 @@ k=json.load(open('/verif/known_findings.json'))
 want=set(sys.argv[1:])
 seen=set()
 for e in k:
-    if e['status']=='fixed' and (e['commit'],e['property']) not in seen and (not want or e['commit'] in want):
+    if e['status']=='fixed' and not e.get('superseded_by') and (e['commit'],e['property']) not in seen and (not want or e['commit'] in want):
         seen.add((e['commit'],e['property']))
         print(e['commit'], e['property'])
 PY
